@@ -246,7 +246,7 @@ int main(int argc, char **argv) {
         }
     } else if (mode == "cache") {
         // C16: tag-cache lifetimes - parse, copy, move, assign, clear, reuse with another template, destroy in every order
-        std::vector<long> prev;
+        std::vector<long> prev, prev_vj;   // the previous case's template is only ever rendered with ITS value (a loop over the root with another value can be members^depth work)
         while (vf::read_line(in, line)) {
             long idx = n++;
             if (idx < from) continue;
@@ -263,7 +263,7 @@ int main(int argc, char **argv) {
             {
                 using Core = TemplateCore<char, Value<char>, StringStream<char>>;
                 vf::Exact<char>     buf(t.begin(), t.end()), pbuf(prev.begin(), prev.end());
-                Value<char>         v = parse_value<char>(vj);
+                Value<char>         v = parse_value<char>(vj), pv = parse_value<char>(prev_vj);
                 Array<Tags::TagBit> cache;
                 Core::Parse((const char *)buf.data(), (SizeT)buf.n, cache);
                 Core               core((const char *)buf.data(), (SizeT)buf.n), pcore((const char *)pbuf.data(), (SizeT)pbuf.n);
@@ -289,8 +289,8 @@ int main(int argc, char **argv) {
                 cache.Clear();                                         // clear and reuse for another template
                 Core::Parse((const char *)pbuf.data(), (SizeT)pbuf.n, cache);
                 StringStream<char> a, b;
-                pcore.Render(cache, v, a);
-                Template::Render((const char *)pbuf.data(), (SizeT)pbuf.n, v, b);
+                pcore.Render(cache, pv, a);
+                Template::Render((const char *)pbuf.data(), (SizeT)pbuf.n, pv, b);
                 same &= (a == b);
                 cache += assigned;                                     // append a copy of one cache to another, then drop part of it
                 cache.Drop(cache.Size() / 2);
@@ -300,7 +300,8 @@ int main(int argc, char **argv) {
             std::string jt;
             vf::json_ints(jt, t);
             fprintf(out, "{\"t\":%s,\"same\":%d}\n", jt.c_str(), same);
-            prev = t;
+            prev    = t;
+            prev_vj = vj;
         }
     } else if (mode == "parse") {
 #ifdef QENTEM_VERIF
